@@ -254,12 +254,15 @@ def check(repo, tier):
                     run.add(F(entry, f'D3 {meth} structure', f'{scen}: ' + '; '.join(bad[:3])))
     # ------------------------------------------------------------------ D4: full, matricize, element
     for d in orders:
-        for role in ('op', 'vec'):
-            scen = f'full(order={d}, {role})'
-            entry = f'{TTM}.TT.full'
-
+        for role, rank1 in (('op', False), ('vec', False), ('op', True), ('vec', True)):
+          if rank1 and d < 2:
+              continue
+          # (all bonds of rank one: a plain Kronecker / outer product of the core matrices, the case a fast path would single out)
+          scen = f'full(order={d}, {role}' + (', all ranks 1' if rank1 else '') + ')'
+          entry = f'{TTM}.TT.full'
+          if True:
             def body(sc):
-                a = sc.tt('a', d, role, square=False)
+                a = sc.tt('a', d, role, square=False, **({'ranks': [1] * (d + 1)} if rank1 else {}))
                 return sc.method(a, 'full')
             for ch, sc, res, exc in run_scen(scen, body):
                 if exc is not None:
@@ -274,6 +277,7 @@ def check(repo, tier):
                 run.oblige('D4', (entry, scen), good, sample={'rule': 'D4', 'scenario': scen, 'axes': str(res.legs)} if d == 3 and role == 'op' else None)
                 if not good:
                     run.add(F(entry, 'D4 axis order of full()', f'{scen}: the axes of the result carry {res.legs}, expected rows of sites 0..{d - 1} then columns of sites 0..{d - 1}'))
+        for role in ('op', 'vec'):
             # mixed unit modes: one site at a time has a column (resp. row) dimension of size one while the others are general
             unit_variants = [None] + ([(side, k) for side in ('col', 'row') for k in range(d)] if role == 'op' and d >= 2 else [])
             for uv in unit_variants:
